@@ -12,6 +12,7 @@ the seed program is cut into tokens with the repository lexer ONCE (token texts 
 changes only (a) the layout strings between tokens, or (b) the text of single tokens in a way the grammar (SsbCommon.g4 /
 ExplorerScript.g4) and docs/language_spec.rst declare equivalent:
 
+  compact       layout and comments removed next to the single-character tokens ( ) { } [ ] , ; : (which cannot merge with a neighbour)
   layout        every gap replaced by random layout (blanks, tabs, LF, CRLF, CR, line joining `\\`+newline, comments); a gap
                 that was non-empty stays non-empty (removing layout can merge tokens: that is not a re-spelling)
   comment       a `// ...` line comment or a `/* ... */` block comment inserted at EACH token boundary in turn (also before
@@ -131,6 +132,15 @@ SMALL = [
     "def 0 { end; }\ndef 1 { hold; }\ndef 2 { return; }",
     "// leading comment\ndef 0 { /* inner */ a(); // trailing\n}\n/* unterminated",
     "def 0 { a('it\\'s', \"q\\\"q\", 'a\\nb', \"\"\"x\"\"\", '''y'''); }",
+    # '-' glued to numbers / assignment operators
+    "def 0 { $a -= 1; $a -=-1; $a = -1; $a += -0x1; x(1,-2,-.5, -0.5); switch ($a) { case -1: x(); break; case > -2: y(); } if ($a < -1) { z(); } }",
+    # identifiers that start with (or contain) keywords
+    "def 0 { message_SwitchTalkX(1); iffy(); forx(); defx(); Positions(1); endx(); casex(); returnx(); for_actors(); notx(); value1(); menu22(); "
+    "x(if_, FALSEx, TRUE_, $if, $for, $Position, debugx, scnx, actor, object, performer); jumpx(); @callx; jump @callx; }",
+    # operators without any layout
+    "def 0{if($a==1||$b>=value($c)||$d&<<2||$e<=3||$f!=4||$g&5||$h^6||$i<7||$j>8){a();}elseif not($a[1]){b();}else{c();}}",
+    # line joining and CR / CRLF line ends in the seed itself
+    "def 0 \\\n{ a(1, \\\r\n 2); \r b(); \r\n c(); }",
 ]
 
 STATEMENT_POOL = [
@@ -176,7 +186,7 @@ def seed_programs(ctx: Ctx) -> list[dict]:
     seeds = [{"name": "big", "text": BIG, "path": "/verif-nonexistent/big.exps", "lookup": []}]
     for i, t in enumerate(SMALL):
         seeds.append({"name": f"small{i}", "text": t, "path": f"/verif-nonexistent/small{i}.exps", "lookup": []})
-    for i, t in enumerate(generated_programs(random.Random(ctx.seed + 16), 40 if ctx.thorough else 12)):
+    for i, t in enumerate(generated_programs(random.Random(ctx.seed + 16), 150 if ctx.thorough else 12)):
         seeds.append({"name": f"gen{i}", "text": t, "path": f"/verif-nonexistent/gen{i}.exps", "lookup": []})
     repo = ctx.repo if ctx.repo else REPO
     ex = os.path.join(repo, "example", "SCRIPT", "base.exps")
@@ -253,11 +263,22 @@ def _quiet():
     return contextlib.redirect_stderr(io.StringIO())
 
 
+class CompilerRaised(Exception):
+    """Wraps an exception raised by the repository's compile() (as opposed to one raised by this checker)."""
+
+    def __init__(self, exc: BaseException):
+        super().__init__(repr(exc))
+        self.exc = exc
+
+
 def fingerprint(seed: dict, text: str) -> Any:
-    """JSON-able fingerprint of compile(text); raises whatever the compiler raises."""
+    """JSON-able fingerprint of compile(text); raises CompilerRaised(e) if compile() raises e."""
     r = _repo()
-    with _quiet():
-        c = r.Compiler(PPL, list(seed["lookup"])).compile(text, seed["path"])
+    try:
+        with _quiet():
+            c = r.Compiler(PPL, list(seed["lookup"])).compile(text, seed["path"])
+    except Exception as e:
+        raise CompilerRaised(e) from e
     ops = [[[op.offset, op.op_code.name, [_j(r.param_key(p)) for p in op.params]] for op in rt] for rt in c.routine_ops]
     infos = [[i.type.name, i.linked_to, i.linked_to_name] for i in c.routine_infos]
     named = [n if isinstance(n, str) else None for n in c.named_coroutines]
@@ -306,6 +327,27 @@ def t_layout(toks, gaps, rng: random.Random, n: int):
     for i in range(n):
         ng = [_layout_for(rng, g) for g in gaps]
         yield ("layout", "random", list(toks), ng)
+
+
+PURE_PUNCT = set("(){}[],;:")
+
+
+def t_compact(toks, gaps, rng: random.Random, n: int):
+    """Remove layout (and comments) where the grammar cannot merge the neighbours: next to ( ) { } [ ] , ; : which are
+    single-character tokens and never part of a longer token."""
+    removable = [i for i in range(1, len(toks)) if toks[i - 1][1][-1] in PURE_PUNCT or toks[i][1][0] in PURE_PUNCT]
+    ng = list(gaps)
+    for i in removable:
+        ng[i] = ""
+    ng[0] = ""
+    ng[-1] = ""
+    yield ("compact", "all", list(toks), ng)
+    for _ in range(n):
+        ng = list(gaps)
+        for i in removable:
+            if rng.random() < 0.5:
+                ng[i] = ""
+        yield ("compact", "random-subset", list(toks), ng)
 
 
 def t_comments(toks, gaps):
@@ -521,7 +563,8 @@ def t_quotes(toks, gaps):
 def respellings(seed: dict, ctx_seed: int, thorough: bool):
     toks, gaps = tokenize(seed["text"])
     rng = random.Random(hashlib.sha1((seed["name"] + str(ctx_seed)).encode()).hexdigest())
-    yield from t_layout(toks, gaps, rng, 24 if thorough else 8)
+    yield from t_layout(toks, gaps, rng, 60 if thorough else 8)
+    yield from t_compact(toks, gaps, rng, 30 if thorough else 4)
     yield from t_comments(toks, gaps)
     yield from t_labels(toks, gaps)
     yield from t_for_target(toks, gaps)
@@ -538,7 +581,8 @@ def evaluate(seed: dict, base_fp: Any, transform: str, cls: str, text: str) -> d
     inp = {"seed": seed, "transform": transform, "class": cls, "respelled": text}
     try:
         fp = fingerprint(seed, text)
-    except Exception as e:
+    except CompilerRaised as cr:
+        e = cr.exc
         return {
             "signature": f"C16:{transform}:{cls}:respelling-rejected-{type(e).__name__}",
             "what": f"{transform} ({cls}) of seed {seed['name']}: the re-spelling is rejected: {type(e).__name__}: {e}"[:400],
@@ -583,7 +627,7 @@ def accepted_seeds(ctx: Ctx) -> tuple[list[dict], list[str]]:
         try:
             fingerprint(s, s["text"])
             ok.append(s)
-        except Exception:
+        except CompilerRaised:
             rejected.append(s["name"])
     return ok, rejected
 
@@ -639,7 +683,10 @@ def run(ctx: Ctx) -> PropResult:
     res.extra["signature_counts"] = dict(sorted(seen.items()))
     if n == 0:
         res.self_check_failures.append("C16: no re-spelling was evaluated")
-    for need in ("layout", "comment-line", "comment-block", "label", "for-target", "comma", "int-base", "dec-zeros", "quotes"):
+    own_rejected = [r for r in rejected if not r.startswith("fixture/test_err")]
+    if own_rejected:
+        res.self_check_failures.append(f"C16: seed programs that should be accepted are rejected by the compiler: {own_rejected}")
+    for need in ("layout", "compact", "comment-line", "comment-block", "label", "for-target", "comma", "int-base", "dec-zeros", "quotes"):
         if not per.get(need):
             res.self_check_failures.append(f"C16: transformation '{need}' was never applied")
     return res
